@@ -18,6 +18,11 @@
 //!     until every order the run has sent so far is fully answered (response + balance + trade
 //!     processed by THAT run's engine). `backtest()`, `SystemBuild::init`,
 //!     `shutdown_after_backtest` are untouched; the scenario becomes deterministic.
+//!     (Why the FIRST item waits for the snapshot: the mock exchange stamps every balance with the
+//!     request time of the wall-clock driven `HistoricalClock`; the first market event re-anchors
+//!     that clock at its seed, so an order sent on it before the snapshot is processed gets a
+//!     balance stamped OLDER than the snapshot and the engine keeps the snapshot's pre-order
+//!     balance - measured once in ~500 concurrent runs, a timing dependence of the scenario.)
 //!
 //! Observation: the engine state type is `EngineState<RecGlobal, RecInst>` - recording data states
 //! implemented here (every market event / account event the engine hands them, in order; every
@@ -31,7 +36,6 @@
 //! per run with the schedule-independent facts (fills, positions, balances, realised PnL, summary
 //! digest) that python compares between a concurrent run and the same parameters run alone.
 use barter::{
-    EngineEvent,
     backtest::{
         BacktestArgsConstant, BacktestArgsDynamic,
         market_data::{BacktestMarketData, MarketDataInMemory},
@@ -344,7 +348,7 @@ impl ActStrategy {
         s.calls += 1;
         let log = &state.global.log;
         if log.len() < s.copied {
-            s.anomalies.push(format!("engine state log shrank from {} to {} entries", s.copied, log.len()));
+            s.anomalies.push(format!("state-log-shrank: engine state log shrank from {} to {} entries", s.copied, log.len()));
             s.copied = log.len();
         }
         // orders recorded in flight so far = orders sent in earlier steps
@@ -353,14 +357,14 @@ impl ActStrategy {
         for (_, is) in state.instruments.0.iter() {
             for c in &is.data.opens {
                 if !c.starts_with(&format!("r{}-", self.run)) {
-                    s.anomalies.push(format!("in-flight record of a foreign order {c} in run {}", self.run));
+                    s.anomalies.push(format!("foreign-order-in-flight: in-flight record of a foreign order {c} in run {}", self.run));
                 }
             }
         }
         let mut last = None;
         let new: Vec<Obs> = log[s.copied..].to_vec();
         if new.len() != 1 {
-            s.anomalies.push(format!("{} new engine-state entries between two strategy calls", new.len()));
+            s.anomalies.push(format!("entries-per-step: {} new engine-state entries between two strategy calls (every processed event must show exactly one)", new.len()));
         }
         for o in new {
             let mut l = line("Market");
@@ -374,7 +378,7 @@ impl ActStrategy {
                     // routed to its own instrument's data state as well
                     let routed = state.instruments.0.get_index(inst).map(|(_, is)| is.data.markets.last() == Some(&(tag, id))).unwrap_or(false);
                     if !routed {
-                        s.anomalies.push(format!("market event {id} not seen last by the data state of instrument {inst}"));
+                        s.anomalies.push(format!("misrouted-market-event: market event {id} not seen last by the data state of instrument {inst}"));
                     }
                     l["id"] = json!(id);
                     l["tag"] = json!(tag);
@@ -584,8 +588,8 @@ impl BacktestMarketData for GatedMarketData {
         let events = Arc::clone(&self.events);
         let gates = Arc::clone(&self.gates);
         let timeouts = Arc::clone(&self.gate_timeouts);
-        // state: (next 0-based index, market items emitted, receiver)
-        Ok(futures::stream::unfold((0usize, 0usize, rx), move |(idx, items, mut rx)| {
+        // state: (next 0-based index, receiver)
+        Ok(futures::stream::unfold((0usize, rx), move |(idx, mut rx)| {
             let events = Arc::clone(&events);
             let gates = Arc::clone(&gates);
             let timeouts = Arc::clone(&timeouts);
@@ -608,12 +612,10 @@ impl BacktestMarketData for GatedMarketData {
                     return None;
                 }
                 let mut ev = events[idx].clone();
-                let mut items = items;
                 if let MarketStreamEvent::Item(e) = &mut ev {
                     e.kind.tag = tag;
-                    items += 1;
                 }
-                Some((ev, (idx + 1, items, rx)))
+                Some((ev, (idx + 1, rx)))
             }
         }))
     }
@@ -1017,7 +1019,3 @@ fn main() {
         _ => usage("commands: run | plan"),
     }
 }
-
-// keep the unused import checker quiet about the event alias used in documentation
-#[allow(dead_code)]
-type _Ev = EngineEvent<Tick>;
